@@ -1,14 +1,21 @@
-//! C15 — unsafe fast paths stay inside their buffers. Monitor (a): the cfg-gated shadow
-//! assertions restate the bounds precondition in safe code immediately before every unsafe
-//! access; this check drives the encoder and decoder domains through them and fails exactly when
-//! one fires. (The same binary built with AddressSanitizer is monitor (b), driven by ./check.)
+//! C15 — unsafe fast paths stay inside their buffers. Three monitors over one exhaustive bounded
+//! domain of encoder inputs and hostile decoder inputs:
+//!  (a) the cfg-gated shadow assertions restate the bounds precondition in safe code immediately
+//!      before every unsafe access and panic when it does not hold;
+//!  (b) guard pages: the cases run in child processes whose allocator gives every buffer of
+//!      >= 1 KiB its own mapping with an inaccessible page directly behind its last byte (pass
+//!      "after") or directly in front of its first byte (pass "before"), so that any access
+//!      outside the allocation — raw pointer, unchecked slice, SIMD or assembly — kills the child
+//!      with SIGSEGV, which the parent attributes to the case in flight;
+//!  (c) thorough tier: the same binary built with AddressSanitizer (driven by ./check), in-process.
 
-use crate::c01;
 use crate::c04::{decode_with, Rd};
 use crate::codec::{self, Container, Opts};
 use crate::common::*;
 use crate::corpus;
+use crate::iso::{self, IsoCheck};
 use lzma_rust2::verif::bias;
+use mc_core::alloc;
 use mc_core::gen::{self, Seg};
 use mc_core::run::{catch, par_for_with, Cli};
 use mc_core::{Report, Violation};
@@ -16,40 +23,52 @@ use serde_json::json;
 
 const SHADOW: &str = "verif shadow bounds check failed";
 
-fn report(rep: &Report, p: &mc_core::run::PanicInfo, case: String, side: &str) {
-    if p.msg.starts_with(SHADOW) {
-        rep.violation(Violation::new("out-of-bounds", p.msg.clone(), case).attr("side", side).attr("monitor", "shadow").detail(format!("{}:{}", p.file, p.line)));
-    } else {
-        // other panics are C01/C06's business; counted so that they are visible
-        rep.add("other_panics", 1);
-    }
+struct E {
+    cont: Container,
+    o: Opts,
+    input: Input,
+    bias: i32,
 }
 
-pub fn run(cli: &Cli, rep: &Report) {
-    let thorough = cli.thorough();
-    let asan = std::env::var_os("VERIF_ASAN").is_some();
-    rep.rule(
-        "encoder domain: MICRO(A3,4) x reduced option grid x {LZMA, LZMA2}, mechanism-forcing shapes (matches touching both ends of the window, window moves, finishing with < 8 bytes left, 273-byte matches at the \
-         buffer end) x 8 option vectors, biased-start renormalisation cases; decoder domain: every single-fault byte mutant of every LZMA2-based corpus file (small files: all; medium files: stride 97) and truncations, \
-         which drive decode_direct_bits to and beyond the end of the chunk buffer; monitor: safe-code assertions before each unsafe access (get_unchecked ranges, read_unaligned words, clamped u16 reads, asm pos/limit); \
-         non-trivial = a case in which at least one unsafe access was executed (counted by the hook counters)",
-    );
-    rep.assumption("a monitor over an exhaustive bounded exploration, not a proof of memory safety; the inline assembly's own loads are covered by the pos/limit precondition and (thorough) by valgrind/ASan runs of the same cases");
-    if asan {
-        rep.assumption("this run executed under AddressSanitizer (nightly, -Zsanitizer=address): any out-of-bounds heap access aborts the process and is reported by the driver");
-    }
+struct Domain {
+    ecases: Vec<E>,
+    items: Vec<corpus::Item>,
+    /// (item, first position, end position) — one work unit of decoder mutants
+    units: Vec<(usize, usize, usize)>,
+    thorough: bool,
+    asan: bool,
+    slow: bool,
+    seed: u64,
+    windows: Vec<(String, usize)>,
+}
 
-    // ---------------- encoder
-    struct E {
-        cont: Container,
-        o: Opts,
-        input: Input,
-        bias: i32,
-    }
+/// Size of the encoder's window buffer for (container, options): the largest byte-buffer
+/// (alignment 1) request made while encoding three bytes.
+fn window_size(cont: &Container, o: &Opts) -> usize {
+    alloc::begin();
+    let _ = catch(|| codec::encode(cont, o, &[1, 2, 3], &[]));
+    alloc::biggest_bytes_request()
+}
+
+/// The unoptimised build (profile guard0) runs a reduced domain: it is 10-30x slower.
+fn slow_build() -> bool {
+    std::env::var_os("VERIF_SLOW_BUILD").is_some()
+}
+
+fn build(thorough: bool, asan: bool, seed: u64) -> Domain {
+    let slow = slow_build();
     let mut ecases: Vec<E> = vec![];
     // under AddressSanitizer every allocation is an mmap: a stated 1/20 of the domain is run there
-    let l = if asan { 2 } else if thorough { 4 } else { 3 };
-    let g: Vec<Opts> = grid().into_iter().filter(|o| o.depth == 0 || o.depth == 4).filter(|o| o.nice != 32).filter(|o| !asan || (o.dict == 4096 && o.pb == 2)).collect();
+    let l = if asan { 2 } else if slow && !thorough { 3 } else if thorough && !slow { 5 } else { 4 };
+    // lc/lp/pb only select probability tables (safe code): three representative triples; the dimensions that reach the
+    // unsafe code (dictionary size, mode, match finder, nice length, depth) are kept in full
+    let g: Vec<Opts> = grid()
+        .into_iter()
+        .filter(|o| o.depth == 0 || o.depth == 4)
+        .filter(|o| o.nice != 32)
+        .filter(|o| matches!((o.lc, o.lp, o.pb), (3, 0, 2) | (0, 4, 4) | (4, 0, 0)))
+        .filter(|o| !asan || (o.dict == 4096 && o.pb == 2))
+        .collect();
     for s in 0..gen::micro_count(3, l) {
         for o in &g {
             for c in [Container::LzmaRawMarker, Container::Lzma2] {
@@ -81,11 +100,43 @@ pub fn run(cli: &Cli, rep: &Report) {
         // finishing with 0..8 bytes after a long match
         shapes.push(vec![Seg::C(1000), Seg::D(500, 400), Seg::L((0..tail as u8).collect())]);
     }
+    let dicts: &[u32] = if asan { &[4096] } else { &[4096, 65536] };
     for sh in &shapes {
-        for o in minigrid(if asan { &[4096] } else { &[4096, 65536] }) {
+        for o in minigrid(dicts) {
             for c in [Container::LzmaRawMarker, Container::Lzma2, Container::Lzma2Preset(300)] {
+                let big: usize = sh.iter().map(|g| g.len()).sum();
+                if slow && !thorough && big > 100_000 && (matches!(c, Container::Lzma2Preset(_)) || !(o.fast || o.dict == 4096)) {
+                    continue; // the unoptimised build runs the long shapes with 5 of the 8 option vectors, without preset
+                }
                 if c.accepts(&o) {
                     ecases.push(E { cont: c, o, input: Input::Shape(sh.clone()), bias: 0 });
+                }
+            }
+        }
+    }
+    // the window buffer exactly full (and one byte around it) when the stream is finished, with matches that run
+    // to the last byte: the only situation in which "one past the match" is also one past the allocation
+    let mut windows = vec![];
+    for o in minigrid(dicts) {
+        for c in [Container::LzmaRawMarker, Container::Lzma2] {
+            if !c.accepts(&o) {
+                continue;
+            }
+            let b = window_size(&c, &o);
+            windows.push((format!("{}|{}", c.desc(), o.desc()), b));
+            if b < 4096 {
+                continue;
+            }
+            let deltas: Vec<i64> = if asan { vec![-1, 0, 1] } else if slow && !thorough { vec![-8, -1, 0, 1] } else { (-9..=1).collect() };
+            for delta in deltas {
+                let total = (b as i64 + delta) as usize;
+                let d = o.dict as usize;
+                let mut tails = vec![vec![Seg::R(64), Seg::P(3, total - 64)], vec![Seg::Z(total)]];
+                if total > d + 8 {
+                    tails.push(vec![Seg::R(d), Seg::D(d, total - d)]);
+                }
+                for sh in tails {
+                    ecases.push(E { cont: c.clone(), o, input: Input::Shape(sh), bias: 0 });
                 }
             }
         }
@@ -97,32 +148,218 @@ pub fn run(cli: &Cli, rep: &Report) {
             }
         }
     }
-    rep.extra("encoder_cases", json!(ecases.len()));
-    let mut biases: Vec<i32> = ecases.iter().map(|e| e.bias).collect();
+
+    // decoder: mutants of LZMA2-based streams (buffer range decoder => asm path)
+    let mut items: Vec<corpus::Item> = corpus::small().into_iter().filter(|it| it.cont.is_lzma2_based()).collect();
+    if !asan {
+        items.extend(corpus::medium().into_iter().filter(|it| it.cont.is_lzma2_based()));
+    } else {
+        items.truncate(6);
+        items.extend(corpus::medium().into_iter().filter(|it| it.cont.is_lzma2_based()).take(1));
+    }
+    // work units: (item, position range), so that the large files are spread over all workers
+    let mut units: Vec<(usize, usize, usize)> = vec![];
+    for (ii, it) in items.iter().enumerate() {
+        let n = it.bytes.len();
+        let step = if n > 4096 { 512 } else { 64 };
+        let mut lo = 0;
+        while lo < n {
+            units.push((ii, lo, (lo + step).min(n)));
+            lo += step;
+        }
+    }
+    units.sort_by_key(|u| std::cmp::Reverse(items[u.0].bytes.len()));
+    Domain { ecases, items, units, thorough, asan, slow, seed, windows }
+}
+
+impl Domain {
+    fn enc_desc(&self, i: usize) -> String {
+        let e = &self.ecases[i];
+        format!("C15|enc|{}|{}|bias{}|{}", e.cont.desc(), e.o.desc(), e.bias, e.input.desc())
+    }
+
+    fn unit_desc(&self, ui: usize) -> String {
+        let (ii, lo, hi) = self.units[ui];
+        format!("C15|dec|{}|positions{}..{}", self.items[ii].name, lo, hi)
+    }
+
+    /// one encoder case (the position bias must already be set); true = non-trivial
+    fn run_enc(&self, i: usize, rep: &Report, case: &str) -> bool {
+        let e = &self.ecases[i];
+        let input = e.input.build(self.seed);
+        match catch(|| codec::encode(&e.cont, &e.o, &input, &[])) {
+            Err(p) => {
+                report(rep, &p, case.to_string(), "encoder", "");
+                false
+            }
+            Ok(_) => input.len() >= 2,
+        }
+    }
+
+    /// all decoder mutants of one unit; `sel` filters single mutants (in-process replays);
+    /// `unit_case` = report violations under the unit's descriptor (child processes)
+    fn run_unit(&self, ui: usize, rep: &Report, sel: &dyn Fn(&str) -> bool, unit_case: bool, nontrivial: &mut Vec<u64>) -> u64 {
+        let (ii, lo, hi) = self.units[ui];
+        let it = &self.items[ii];
+        let big = it.bytes.len() > 4096;
+        let stride = match (big, self.asan, self.slow, self.thorough) {
+            (true, true, _, _) => 997,
+            (true, _, true, false) => 389,
+            (true, _, true, true) => 97,
+            (true, _, false, true) => 13,
+            (true, _, false, false) => 97,
+            (false, true, _, _) => 3,
+            (false, _, true, false) => 3,
+            (false, _, _, _) => 1,
+        };
+        let mut n = 0u64;
+        crate::c04::byte_mutants_range(&it.bytes, stride, lo, hi, |m| {
+            if m.class == "duplicate" || m.class == "transpose" || m.class == "insert" {
+                return; // bit flips, substitutions, deletions and truncations reach the same code
+            }
+            let desc = format!("C15|dec|{}|{}", it.name, m.desc);
+            if !sel(&desc) {
+                return;
+            }
+            n += 1;
+            let limit = it.input.len() * 4 + 65536;
+            let r = match &it.cont {
+                Container::Xz { .. } => catch(|| decode_with(Rd::XzMulti, &m.bytes, limit).map(|_| ())),
+                _ => catch(|| codec::decode(&it.cont, &it.opts, &m.bytes, it.input.len()).map(|_| ())),
+            };
+            match r {
+                Err(p) => {
+                    if unit_case {
+                        report(rep, &p, self.unit_desc(ui), "decoder", &desc)
+                    } else {
+                        report(rep, &p, desc, "decoder", "")
+                    }
+                }
+                Ok(_) => nontrivial.push(hash_desc(&desc)),
+            }
+        });
+        n
+    }
+}
+
+fn report(rep: &Report, p: &mc_core::run::PanicInfo, case: String, side: &str, inner: &str) {
+    if p.msg.starts_with(SHADOW) {
+        rep.violation(Violation::new("out-of-bounds", p.msg.clone(), case).attr("side", side).attr("monitor", "shadow").detail(format!("{}:{} {}", p.file, p.line, inner)));
+    } else {
+        // other panics are C01/C06's business; counted so that they are visible
+        rep.add("other_panics", 1);
+    }
+}
+
+impl IsoCheck for Domain {
+    fn n_cases(&self) -> usize {
+        self.ecases.len() + self.units.len()
+    }
+    // index order: decoder units first (the longest cases), then the encoder cases
+    fn desc(&self, i: usize) -> String {
+        if i < self.units.len() {
+            self.unit_desc(i)
+        } else {
+            self.enc_desc(i - self.units.len())
+        }
+    }
+    fn run(&self, i: usize, rep: &Report) -> bool {
+        let g0 = alloc::guarded_allocations();
+        let nt = if i >= self.units.len() {
+            let i = i - self.units.len();
+            bias::set(self.ecases[i].bias);
+            let nt = self.run_enc(i, rep, &self.enc_desc(i));
+            bias::set(0);
+            rep.add("encoder_runs", 1);
+            nt
+        } else {
+            let mut v = vec![];
+            let n = self.run_unit(i, rep, &|_| true, true, &mut v);
+            rep.add("decoder_runs", n);
+            !v.is_empty()
+        };
+        rep.add(&format!("guard.{}.allocations", alloc::guard_mode_name()), alloc::guarded_allocations() - g0);
+        rep.add(&format!("guard.{}.cases", alloc::guard_mode_name()), 1);
+        flush_cov(rep);
+        nt
+    }
+    fn attrs(&self, i: usize) -> Vec<(String, String)> {
+        vec![("side".into(), if i >= self.units.len() { "encoder" } else { "decoder" }.into()), ("monitor".into(), "guard-page".into())]
+    }
+}
+
+pub fn run(cli: &Cli, rep: &Report) {
+    let thorough = cli.thorough();
+    let asan = std::env::var_os("VERIF_ASAN").is_some();
+    rep.rule(
+        "encoder domain: MICRO(A3,4) (thorough: 5) x option grid {4 dictionary sizes x 3 lc/lp/pb triples x nice {8,273} x mode x match finder x depth {0,4}} x {LZMA, LZMA2}, mechanism-forcing shapes (matches touching both ends of the window, maximum-distance matches across window moves, finishing with < 8 bytes left, \
+         273-byte matches at the buffer end, the window buffer exactly full +1/-9 bytes at finish with matches running to the last byte) x 8 option vectors, biased-start renormalisation cases; decoder domain: every \
+         single-fault byte mutant of every LZMA2-based corpus file (small files: all; medium files: stride 97) and truncations, which drive decode_direct_bits to and beyond the end of the chunk buffer; monitors: (a) safe-code \
+         assertions before each unsafe access (get_unchecked ranges, read_unaligned words, clamped u16 reads, asm pos/limit), (b) guard pages directly behind (pass 1) and in front of (pass 2) every heap block >= 1 KiB, \
+         in child processes, death attributed to the case in flight; non-trivial = a case that ran to a verdict with at least 2 input bytes / a decoder mutant that returned",
+    );
+    rep.assumption("a monitor over an exhaustive bounded exploration, not a proof of memory safety; blocks smaller than 1 KiB and the slack that alignment > 1 leaves behind a block are not guarded (byte buffers have none)");
+    if asan {
+        rep.assumption("this run executed under AddressSanitizer (nightly, -Zsanitizer=address), in-process: any out-of-bounds heap access aborts the process and is reported by the driver");
+    }
+    let d = build(thorough, asan, cli.seed);
+    rep.extra("encoder_cases", json!(d.ecases.len()));
+    rep.extra("decoder_units", json!(d.units.len()));
+    rep.extra("decoder_corpus", json!(d.items.iter().map(|i| format!("{} ({} bytes)", i.name, i.bytes.len())).collect::<Vec<_>>()));
+    rep.extra("encoder_window_sizes", json!(d.windows));
+    let d: &'static Domain = Box::leak(Box::new(d));
+
+    if !asan {
+        // in a child process the first call runs the cases and never returns
+        let passes = std::env::var("VERIF_C15_PASSES").unwrap_or_else(|_| "after,before".into());
+        let passes: Vec<&str> = passes.split(',').filter(|p| *p == "after" || *p == "before").collect();
+        rep.extra("guard_passes", json!(passes));
+        rep.extra("build", json!(if slow_build() { "unoptimised (opt-level 0): every source-level load is executed" } else { "optimised (opt-level 2)" }));
+        for p in &passes {
+            iso::run_isolated_env(cli, rep, d, &[("VERIF_GUARD", p)]);
+        }
+        if cli.only.is_none() {
+            for mode in passes {
+                if rep.get(&format!("guard.{mode}.allocations")) == 0 {
+                    rep.machinery_error(format!("vacuous: no allocation was guarded in pass '{mode}'"));
+                }
+            }
+        }
+    } else {
+        run_in_process(cli, rep, d);
+    }
+    if cli.only.is_none() {
+        for (name, what) in [("cov.extend_match_unsafe", "extend_match unsafe slices"), ("cov.direct_bits_asm", "assembly decode_direct_bits")] {
+            if rep.get(name) == 0 {
+                rep.machinery_error(format!("vacuous: {what} never executed ({name} = 0)"));
+            }
+        }
+    }
+    rep.sample(json!({"encoder": "lzma2 dict 4096 Normal/BT4, shape C1000+D500x400+L000102 (3 bytes left after a long match)"}));
+    rep.sample(json!({"decoder": "xz-c4-70k-raw, positions 65536..67584"}));
+}
+
+/// The AddressSanitizer build runs the (reduced) domain on threads of one process.
+fn run_in_process(cli: &Cli, rep: &Report, d: &'static Domain) {
+    let mut biases: Vec<i32> = d.ecases.iter().map(|e| e.bias).collect();
     biases.sort_unstable();
     biases.dedup();
     for b in biases {
         bias::set(b);
-        let idx: Vec<usize> = (0..ecases.len()).filter(|i| ecases[*i].bias == b).collect();
+        let idx: Vec<usize> = (0..d.ecases.len()).filter(|i| d.ecases[*i].bias == b).collect();
         par_for_with(
             idx.len(),
             0,
             |_| (0u64, Vec::<u64>::new()),
             |st, k| {
-                let e = &ecases[idx[k]];
-                let desc = || format!("C15|enc|{}|{}|bias{}|{}", e.cont.desc(), e.o.desc(), e.bias, e.input.desc());
-                if !cli.selected_with(desc) {
+                let i = idx[k];
+                if !cli.selected_with(|| d.enc_desc(i)) {
                     return;
                 }
                 st.0 += 1;
-                let input = e.input.build(cli.seed);
-                match catch(|| codec::encode(&e.cont, &e.o, &input, &[])) {
-                    Err(p) => report(rep, &p, desc(), "encoder"),
-                    Ok(_) => {
-                        if input.len() >= 2 {
-                            st.1.push(hash_desc(&desc()));
-                        }
-                    }
+                let desc = d.enc_desc(i);
+                if d.run_enc(i, rep, &desc) {
+                    st.1.push(hash_desc(&desc));
                 }
             },
             |st| {
@@ -133,55 +370,14 @@ pub fn run(cli: &Cli, rep: &Report) {
         );
     }
     bias::set(0);
-
-    // ---------------- decoder: mutants of LZMA2-based streams (buffer range decoder => asm path)
-    let mut items: Vec<corpus::Item> = corpus::small().into_iter().filter(|it| it.cont.is_lzma2_based()).collect();
-    if !asan {
-        items.extend(corpus::medium().into_iter().filter(|it| it.cont.is_lzma2_based()));
-    } else {
-        items.truncate(6);
-        items.extend(corpus::medium().into_iter().filter(|it| it.cont.is_lzma2_based()).take(1));
-    }
-    rep.extra("decoder_corpus", json!(items.iter().map(|i| format!("{} ({} bytes)", i.name, i.bytes.len())).collect::<Vec<_>>()));
-    // work units: (item, position range), so that the large files are spread over all workers
-    let mut units: Vec<(usize, usize, usize)> = vec![];
-    for (ii, it) in items.iter().enumerate() {
-        let n = it.bytes.len();
-        let step = if n > 4096 { 2048 } else { n.max(1) };
-        let mut lo = 0;
-        while lo < n {
-            units.push((ii, lo, (lo + step).min(n)));
-            lo += step;
-        }
-    }
-    units.sort_by_key(|u| std::cmp::Reverse(items[u.0].bytes.len()));
     par_for_with(
-        units.len(),
+        d.units.len(),
         1,
         |_| (0u64, Vec::<u64>::new()),
         |st, ui| {
-            let (ii, lo, hi) = units[ui];
-            let it = &items[ii];
-            let stride = if it.bytes.len() > 4096 { if asan { 997 } else if thorough { 13 } else { 97 } } else if asan { 3 } else { 1 };
-            crate::c04::byte_mutants_range(&it.bytes, stride, lo, hi, |m| {
-                if m.class == "duplicate" || m.class == "transpose" || m.class == "insert" {
-                    return; // bit flips, substitutions, deletions and truncations reach the same code
-                }
-                let desc = || format!("C15|dec|{}|{}", it.name, m.desc);
-                if !cli.selected_with(desc) {
-                    return;
-                }
-                st.0 += 1;
-                let limit = it.input.len() * 4 + 65536;
-                let r = match &it.cont {
-                    Container::Xz { .. } => catch(|| decode_with(Rd::XzMulti, &m.bytes, limit).map(|_| ())),
-                    _ => catch(|| codec::decode(&it.cont, &it.opts, &m.bytes, it.input.len()).map(|_| ())),
-                };
-                match r {
-                    Err(p) => report(rep, &p, desc(), "decoder"),
-                    Ok(_) => st.1.push(hash_desc(&desc())),
-                }
-            });
+            let mut v = vec![];
+            st.0 += d.run_unit(ui, rep, &|desc| cli.selected(desc), false, &mut v);
+            st.1.extend(v);
         },
         |st| {
             rep.add_many(&[("evaluations", st.0), ("decoder_runs", st.0)]);
@@ -189,14 +385,4 @@ pub fn run(cli: &Cli, rep: &Report) {
             flush_cov(rep);
         },
     );
-    if cli.only.is_none() {
-        for (name, what) in [("cov.extend_match_unsafe", "extend_match unsafe slices"), ("cov.direct_bits_asm", "assembly decode_direct_bits")] {
-            if rep.get(name) == 0 {
-                rep.machinery_error(format!("vacuous: {what} never executed ({name} = 0)"));
-            }
-        }
-    }
-    rep.sample(json!({"encoder": "lzma2 dict 4096 Normal/BT4, shape C1000+D500x400+L000102 (3 bytes left after a long match)"}));
-    rep.sample(json!({"decoder": "xz-c4-70k-raw, flip@65540.3"}));
-    let _ = c01::Case { cont: Container::Lzma2, opts: Opts::small(), input: Input::Bytes(vec![]), ops: vec![], bias: 0 };
 }
